@@ -738,14 +738,14 @@ mut("C24", "union_instead_of_intersection", CG, """            if edges_on_paths
                 Some(callgraph[*edge].tid.clone())
             } else {
                 None
-            }""", ["R3|intersection"], "every edge reachable from the source is reported")
+            }""", ["R3|result|edges-on-source-to-target-paths"], "every edge reachable from the source is reported")
 mut("C24", "edges_merged", CG, "callgraph.add_edge(*source_index, *target_index, jump);", "callgraph.update_edge(*source_index, *target_index, jump);", ["R1|edges|parallel-calls-kept"], "two calls to the same callee collapse")
-mut("C24", "backward_from_source", CG, "let mut stack = vec![target_node];", "let mut stack = vec![source_node];", ["R2|traversal1|start-node"], "backward traversal starts at the source")
+mut("C24", "backward_from_source", CG, "let mut stack = vec![target_node];", "let mut stack = vec![source_node];", ["R2|traversal1|start-and-direction"], "backward traversal starts at the source")
 M.append(("C24", "visited_shared", {"edits": [
     {"file": CG, "find": "        if nodes_on_paths_to_target.insert(node) {", "replace": "        if nodes_reachable_from_source.insert(node) {"},
     {"file": CG, "find": "    let mut nodes_on_paths_to_target = BTreeSet::new();", "replace": "    let mut nodes_on_paths_to_target: BTreeSet<NodeIndex> = BTreeSet::new();\n    let _ = &mut nodes_on_paths_to_target;"}],
     "expect": ["R2|separate-visited-sets"], "desc": "second traversal reuses the first visited set"}))
-mut("C24", "contains_self", CG, "if edges_on_paths_to_target.contains(edge) {", "if edges_reachable_from_source.contains(edge) {", ["R3|intersection"], "membership tested in the iterated set")
+mut("C24", "contains_self", CG, "if edges_on_paths_to_target.contains(edge) {", "if edges_reachable_from_source.contains(edge) {", ["R3|result|edges-on-source-to-target-paths"], "membership tested in the iterated set")
 mut("C24", "skip_self_calls", CG, "                    if let Some(target_index) = tid_to_node_index_map.get(target) {\n                        callgraph.add_edge", "                    if let Some(target_index) = tid_to_node_index_map.get(target).filter(|_| *target != sub.tid) {\n                        callgraph.add_edge", ["R1|edges|iff-direct-call"], "self calls dropped from the call graph")
 mut("C24", "source_target_swapped", CG, "find_call_sequences_from_node_to_target(callgraph, source_node, target_node)\n}", "find_call_sequences_from_node_to_target(callgraph, target_node, source_node)\n}", ["R3|entry|source-and-target"], "query arguments swapped")
 mut("C24", "no_visited_guard", CG, """        if nodes_reachable_from_source.insert(node) {
